@@ -94,7 +94,7 @@ func split(s string) []string {
 // and, when an API contract clause is violated, its description.
 func call(ctx *engine.Ctx, entry, tag, input string, f func() (outcome string, nontrivial bool, clause, detail string)) {
 	desc := entry + "|" + tag + "|" + strconv.Quote(input)
-	feats := []string{entry, tag}
+	feats := featuresOf(entry, tag)
 	var outcome, clause, detail string
 	var nt bool
 	if !ctx.GuardFail(desc, feats, func() { outcome, nt, clause, detail = f() }) {
